@@ -152,6 +152,16 @@ check("C07", "Lean 4 theorems over a hand model of calc_ub (selection table, tri
       "Lean kernel; standard axioms; hand model tied by correspondence; numpy inv/norm modelled by adjugate inverse / sqrt; PARTIAL: the untouched-on-rejection clause is by oracle (model returns no matrix on error).",
       "DESIGN.md §6 C07")
 
+check("C14", "Lean 4 theorems over a hand model of every asdict/fromdict pair on an explicit JSON type + correspondence on real dictionaries + round-trip oracle",
+      "Theorems (Props/C14.lean, Props/C10Bulk.lean; real reading): fromdict(asdict(x)) = x for Position, Reflection, Orientation, the lists, Crystal (for every crystal produced by the constructor: "
+      "cellOfSystem_valid / cellOfSix_valid), ReferenceVector, optional U/UB, UBCalculation, Constraints (bulk_roundtrip: for every state obeying the capacity rules and well typed — both proved "
+      "invariants of every history — the bulk setter on a fresh object re-creates the state, no slot ever refused/replaced), HklCalculation; hence equal dictionaries and, queries being functions of the "
+      "state (C12), equal answers. States with no lattice / no U / UB only / untagged references / either frame are constructors of the state type. Correspondence: the model's asDict of the real "
+      "object's raw attributes vs the real dictionary after json dump/load; the model's fromDict of that dictionary vs the raw attributes of the rebuilt real object; malformed dictionaries must raise on both "
+      "sides. Oracle: fromdict, JSON, pickle.dumps/loads, UBCalculation.pickle/load; equal dictionary and equal get_hkl / get_virtual_angles / get_position answers.",
+      "Lean kernel; standard axioms; hand model tied by correspondence; pickle trusted (oracle only); PARTIAL: floating-point degree/radian rounding is outside the real reading (tie checks 1e-9).",
+      "DESIGN.md §6 C14")
+
 NOT_APPLICABLE = []   # filled below for properties without a registered check
 
 ALL = ["C%02d" % i for i in range(1, 21)]
